@@ -4,12 +4,13 @@ from props.shapes import *
 def plan(ctx):
     thorough = ctx.tier == "thorough"
     obs = []
-    shapes = [(RS, 2, 1, 1), (RS, 2, 2, 2), (ISAV, 2, 1, 1)] + ([(RS, 3, 1, 1), (ISAC, 2, 1, 1)] if thorough else [])
+    shapes = [(RS, 2, 1, 1), (ISAV, 2, 1, 1)] + ([(RS, 2, 2, 2), (RS, 3, 1, 1), (ISAC, 2, 1, 1)] if thorough else [])
     for be, k, m, hd in shapes:
         n = k + m
         unit = k * WB[be]
         subsets = [s for r in range(k, n + 1) for s in itertools.combinations(range(n), r)]
-        if not thorough and n > 3:
+        if n > 3:
+            # decoding both data fragments of RS(2,2) from the two parities is the XOR-hard full round trip (170-420 s per query): keep the sets that leave a data fragment
             subsets = [s for s in subsets if len(s) == n] + [s for s in subsets if len(s) == n - 1][::2]
         for s in subsets:
             order = list(s)
